@@ -689,6 +689,29 @@ def c14_compositions(res, rng):
                 _viol(res, sig, "wrong_value", case, "d/dx x*%s(x): got %s expected %s" % (name, describe(got), describe(expected)))
                 continue
             _ok(res, sig)
+    # inner differentiation of a function that only depends on an *enclosing* traced variable: exact zero
+    from autograd import deriv, elementwise_grad, jacobian
+    from autograd.core import make_vjp as _mv
+
+    inner_ops = {"grad": lambda f, a: grad(f)(a), "deriv": lambda f, a: deriv(f)(a), "egrad": lambda f, a: elementwise_grad(f)(a), "jacobian": lambda f, a: jacobian(f)(a), "vjp": lambda f, a: _mv(f, a)[0](1.0), "jvp": lambda f, a: make_jvp(f, a)(1.0)[1]}
+    for iname, iop in inner_ops.items():
+        for oname, oop in inner_ops.items():
+            for bname, body in (("outer_only", lambda xo, z: anp.sin(xo) * 3.0), ("outer_through_nograd", lambda xo, z: xo * anp.floor(z * 2.0)), ("const", lambda xo, z: 4.0)):
+                res["evaluations"] += 1
+                sig = {"engine": "values", "family": "nested_independent", "inner": iname, "outer": oname, "body": bname}
+                case = {"kind": "nested_independent", "inner": iname, "outer": oname, "body": bname}
+                try:
+                    with warnings.catch_warnings():
+                        warnings.simplefilter("ignore")
+                        # d/dx [ x * d/dz body(x, z) ] : the inner derivative is identically 0
+                        got = oop(lambda xo: xo * iop(lambda z: body(xo, z), 0.7) + xo, 1.3)
+                except Exception as e:
+                    _viol(res, sig, "exception:" + type(e).__name__, case, traceback.format_exc()[-300:])
+                    continue
+                if find_boxes(got) or float(onp.asarray(got)) != 1.0:
+                    _viol(res, sig, "nonzero_for_independent", case, "d/dx[x*D_z body + x] = %r, expected exactly 1.0 (inner derivative must be an exact zero)" % (got,))
+                    continue
+                _ok(res, sig)
     # control flow on tracers follows the plain branch
     for xv in (0.7, -0.7, 0.0, onp.float64(1e-300), onp.array(2.0)):
         for mode in ("rev", "fwd", "rev.rev"):
@@ -833,7 +856,7 @@ def replay(pid, case):
     elif k in ("nograd", "nograd_constancy"):
         c14_nograd(res, rng)
         res["violations"] = [v for v in res["violations"] if v["case"].get("fn") == case["fn"] and v["case"]["kind"] == k and v["case"].get("template") == case.get("template") and v["case"].get("mode") == case.get("mode")]
-    elif k in ("composition", "control_flow"):
+    elif k in ("composition", "control_flow", "nested_independent"):
         c14_compositions(res, rng)
         res["violations"] = [v for v in res["violations"] if v["case"] == case]
     res["sets"] = {k: sorted(v) for k, v in res["sets"].items()}
